@@ -87,6 +87,11 @@ def run_cli(
     if country == "generic":
         env.setdefault("CURRENCY_CODE", "usd")
         env.setdefault("LONG_TERM_CAPITAL_GAINS", "365")
+    import zlib
+
+    if zlib.crc32((country + " " + " ".join(args)).encode()) % 4 == 0:
+        # a quarter of all runs (a function of the options) log at debug level: what RP2 computes does not depend on how much it logs
+        env["LOG_LEVEL"] = "DEBUG"
     if env_extra:
         for key, value in env_extra.items():
             if value is None:
